@@ -347,6 +347,11 @@ def execute(case, ctx):
         viol("archive", "wrong snapshot count", "written %d, archive reports %d (warnings: %s)" % (len(model), sa.nblobs, q.messages[:2]), key="archive:count")
         return result
     prev_off = -1
+    # the Python wrapper's own view of the index
+    if len(sa) != len(model) or rb.dbits(sa.tmin) != rb.dbits(model[0]["t"]) or rb.dbits(sa.tmax) != rb.dbits(model[-1]["t"]):
+        viol("archive", "len / tmin / tmax of the Python archive object disagree with the snapshots written", "len %d (written %d), tmin %r tmax %r (first %r last %r)" % (
+            len(sa), len(model), sa.tmin, sa.tmax, model[0]["t"], model[-1]["t"]), key="archive:python-index")
+        return result
     for k in range(sa.nblobs):
         if rb.dbits(sa.t[k]) != rb.dbits(model[k]["t"]):
             viol("archive", "per-snapshot time wrong", "snapshot %d: index says %r, live t was %r" % (k, sa.t[k], model[k]["t"]), key="archive:time")
@@ -364,6 +369,10 @@ def execute(case, ctx):
             if not d:
                 # and through memory: the arrays of the loaded snapshot against the live arrays at the moment the snapshot was written
                 d = rb.S_diff(rb.A(s), model[k]["a"])
+            if not d and k % 3 == 1:
+                # the same snapshot through a negative index
+                if rb.S_diff(rb.S(sa[k - sa.nblobs]), rb.S(sa[k])):
+                    d = [-1]        # (reported as field "-1:?": the negative-index form returned another snapshot)
         if d:
             viol("content", "snapshot differs from live state when taken", "snapshot %d of %d differs in fields %s; history %s" % (k, sa.nblobs, rb.describe_fields(d), kinds), key="content:snapshot-differs")
             return result
